@@ -752,6 +752,17 @@ pub fn item_debug(variant: &str, key: &str, bytes: &[u8], reference_rendering: &
     }
 }
 
+/// The same packet with its length in the extended form CC II FF lo hi (unchanged if it already is).
+pub fn to_extended_form(p: &[u8]) -> Vec<u8> {
+    if p.len() < 3 || p[2] == 0xff {
+        return p.to_vec();
+    }
+    let body = &p[3..];
+    let mut out = vec![p[0], p[1], 0xff, body.len() as u8, (body.len() >> 8) as u8];
+    out.extend_from_slice(body);
+    out
+}
+
 /// A small upload directory for the WriteFile stream inside C05/C06.
 fn small_dir(tag: &str, rng: &mut Rng) -> (PayloadDir, WriteFileParams, BTreeMap<u8, u32>) {
     let mut files = BTreeMap::new();
@@ -843,7 +854,7 @@ fn wf_full_upload(rng: &mut Rng, dir: &PayloadDir, block: u32) -> Vec<Reply> {
 pub fn run_c05(ctx: &Ctx) -> i32 {
     let mut report = ctx.report("C05", "exploration");
     let depth = ctx.by(5usize, 7usize);
-    report.rule = format!("18 streams (17 Sequence impls + feig WriteFile) x every reply script of the form non-final^d final with d < {depth} over the stream's reply alphabet (single-reply streams: every variant), each letter instantiated with canonical values of the variant's type (several per letter, reference-encoded), x junk behind the final packet {{none, a valid packet, random bytes}} x chunking {{whole, byte-wise with a Pending wake-up between chunks}} x partial writes; plus random scripts to depth 40; for WriteFile additionally complete uploads (every announced byte of 1-3 small firmware/application files fetched block by block, sequentially or interleaved, optionally probing the end of file) followed by the completion. The terminal releases reply i+1 only after reply i was answered (gate). Oracle: the abstract event log must equal [W(command), Read(ack+r1), W(answer1), Yield(r1), Read(r2), W(answer2), Yield(r2) ... End] and the stream cursor must sit exactly behind the final packet. Non-trivial = script with at least one reply; distinct by hash of (stream, script bytes, junk, chunking).");
+    report.rule = format!("18 streams (17 Sequence impls + feig WriteFile) x every reply script of the form non-final^d final with d < {depth} over the stream's reply alphabet (single-reply streams: every variant), each letter instantiated with canonical values of the variant's type (several per letter, reference-encoded), x junk behind the final packet {{none, a valid packet, random bytes}} x chunking {{whole, byte-wise with a Pending wake-up between chunks}} x partial writes, and once more with every terminal packet (acknowledgement included) in the extended length form CC II FF lo hi; plus random scripts to depth 40; for WriteFile additionally complete uploads (every announced byte of 1-3 small firmware/application files fetched block by block, sequentially or interleaved, optionally probing the end of file) followed by the completion. The terminal releases reply i+1 only after reply i was answered (gate). Oracle: the abstract event log must equal [W(command), Read(ack+r1), W(answer1), Yield(r1), Read(r2), W(answer2), Yield(r2) ... End] and the stream cursor must sit exactly behind the final packet. Non-trivial = script with at least one reply; distinct by hash of (stream, script bytes, junk, chunking).");
     report.exhaustive = Some(true);
     report.assumptions = vec!["reply sets and final packets per stream: DESIGN Appendix B (refcodec::tables), written from the specification".into(), "commands are obtained by decoding reference encodings (C03 covers that bridge)".into()];
     let schema = refcodec::zvt_schema();
@@ -912,8 +923,16 @@ pub fn run_c05(ctx: &Ctx) -> i32 {
                         (b.clone(), CmdCheck::Exact(b))
                     }
                 };
-                for junk in junk_variants(&mut rng, &pools) {
+                // the same script with every terminal packet in the extended length form CC II FF lo hi (not the shortest
+                // form for short bodies, but a form every reader accepts): one more variant per script
+                let ext_replies: Vec<Reply> = replies.iter().map(|rp| Reply { bytes: to_extended_form(&rp.bytes), ..rp.clone() }).collect();
+                for (vi, junk) in junk_variants(&mut rng, &pools).into_iter().chain(std::iter::once(vec![])).enumerate() {
+                    let ext = vi == 3;
                     for (chunking, pend, wchunk) in [(Chunking::Whole, false, None), (Chunking::Bytewise, true, Some(1 + rng.below(3) as usize))] {
+                        let replies = if ext { &ext_replies } else { &replies };
+                        if ext {
+                            r.count("scripts_in_extended_length_form", 1);
+                        }
                         let ex = Exchange {
                             stream: sd.name,
                             cmd_bytes: cmd_bytes.clone(),
@@ -921,7 +940,7 @@ pub fn run_c05(ctx: &Ctx) -> i32 {
                                 CmdCheck::Exact(b) => CmdCheck::Exact(b.clone()),
                                 CmdCheck::WriteFile { password, files, len } => CmdCheck::WriteFile { password: *password, files: files.clone(), len: *len },
                             },
-                            ack: ACK.to_vec(),
+                            ack: if ext { to_extended_form(&ACK) } else { ACK.to_vec() },
                             replies: replies.clone(),
                             final_at: Some(replies.len() - 1),
                             junk: junk.clone(),
@@ -932,7 +951,7 @@ pub fn run_c05(ctx: &Ctx) -> i32 {
                             wf: wf_ctx.as_ref().map(|c| &c.1),
                         };
                         let mut h = fnv(sd.name.as_bytes()) ^ fnv(&cmd_bytes);
-                        for rp in &replies {
+                        for rp in replies.iter() {
                             h = h.wrapping_mul(0x100000001b3) ^ fnv(&rp.bytes);
                         }
                         h ^= fnv(&junk).rotate_left(7) ^ (pend as u64);
@@ -996,6 +1015,48 @@ fn malformed(schema: &Schema, pools: &Pools, rng: &mut Rng, key: &str) -> Option
             }
         }
     }
+    // a repeated element other than the first one announces more bytes than its container holds (everything around it,
+    // the enclosing lengths included, is consistent)
+    for _ in 0..6 {
+        let (bytes, _) = pools.pick(rng, key);
+        let (v, _) = codec.decode(def, bytes).ok()?;
+        let mut t = codec.enc_top(def, &v).ok()?;
+        fn break_later_element(n: &mut refcodec::codec::Node, rng: &mut Rng) -> bool {
+            let Payload::Struct(s) = &mut n.payload else { return false };
+            for g in s.groups.iter_mut() {
+                if g.repeated && g.elems.len() >= 2 {
+                    let k = 1 + rng.below(g.elems.len() as u64 - 1) as usize;
+                    let e = &mut g.elems[k];
+                    let plen = match &e.payload {
+                        Payload::Leaf(b) => b.len(),
+                        Payload::Struct(st) => st.bytes().map(|b| b.len()).unwrap_or(0),
+                    };
+                    if matches!(e.len, refcodec::layout::Len::Ber) {
+                        e.prefix_override = refcodec::codec::ber_len(plen + 1 + rng.below(40) as usize);
+                        return true;
+                    }
+                }
+            }
+            for g in s.groups.iter_mut() {
+                for e in g.elems.iter_mut() {
+                    if break_later_element(e, rng) {
+                        return true;
+                    }
+                }
+            }
+            for e in s.positional.iter_mut() {
+                if break_later_element(e, rng) {
+                    return true;
+                }
+            }
+            false
+        }
+        if break_later_element(&mut t, rng) {
+            if let Some(b) = t.bytes() {
+                cands.push(b);
+            }
+        }
+    }
     // keep only those the reference decoder rejects for a reason the codec properties make mandatory
     cands.retain(|b| matches!(codec.decode(def, b), Err(refcodec::codec::RefErr::Incomplete | refcodec::codec::RefErr::Duplicate(_) | refcodec::codec::RefErr::Missing(_))));
     if cands.is_empty() {
@@ -1008,7 +1069,7 @@ fn malformed(schema: &Schema, pools: &Pools, rng: &mut Rng, key: &str) -> Option
 pub fn run_c06(ctx: &Ctx) -> i32 {
     let mut report = ctx.report("C06", "fault_enumeration");
     let depth = ctx.by(4usize, 6usize);
-    report.rule = format!("18 streams x every valid prefix of non-final replies of length <= {depth} x fault kinds {{NACK 84xx in place of a packet (all 256 codes at the acknowledgement position), the same followed by the regular script (a terminal that did not notice), control field outside the reply set, malformed body for a control field inside the set (rejected by the reference decoder as incomplete/duplicate/missing), packet truncated at every offset followed by end of stream, clean end of stream at the packet boundary}} at every position (the acknowledgement position included), chunking whole / byte-wise; for WriteFile additionally every fault kind right behind (or inside) a complete upload of small firmware/application files. Oracle over the event log: the valid prefix is processed exactly as in C05; after the first faulty byte was delivered there is no write at all, exactly one Err item, then End (no parking). Non-trivial = every fault scenario; distinct by hash of (stream, prefix bytes, fault bytes, position, chunking).");
+    report.rule = format!("18 streams x every valid prefix of non-final replies of length <= {depth} x fault kinds {{NACK 84xx in place of a packet (all 256 codes at the acknowledgement position), the same followed by the regular script (a terminal that did not notice), control field outside the reply set, malformed body for a control field inside the set (rejected by the reference decoder as incomplete/duplicate/missing: top-level duplicate tag, value cut short, missing positional field, a later element of a repeated field announcing more than its container holds), packet truncated at every offset followed by end of stream, clean end of stream at the packet boundary}} at every position (the acknowledgement position included), chunking whole / byte-wise; for WriteFile additionally every fault kind right behind (or inside) a complete upload of small firmware/application files. Oracle over the event log: the valid prefix is processed exactly as in C05; after the first faulty byte was delivered there is no write at all, exactly one Err item, then End (no parking). Non-trivial = every fault scenario; distinct by hash of (stream, prefix bytes, fault bytes, position, chunking).");
     report.exhaustive = Some(true);
     report.assumptions = vec!["malformed bodies are restricted to those whose rejection follows from C02/C13 (top-level duplicate tag, value cut short, missing positional field)".into()];
     let schema = refcodec::zvt_schema();
